@@ -630,6 +630,7 @@ var specUFs = map[string]ufSig{
 	"price":      {[]string{"String"}, "Int"},
 	"hasprice":   {[]string{"String"}, "Bool"},
 	"itkey":      {[]string{"Int", "Int"}, "Key"},
+	"eventhash":  {[]string{"Dyn"}, "String"},
 }
 
 var constSpec = map[string]T{
@@ -745,6 +746,16 @@ func (c *CEnv) callFn(e *Expr) cv {
 		c.fail("sum() is not supported; use explicit ghost accumulators")
 	}
 	switch name {
+	case "asdyn":
+		v := c.eval(e.Args[0])
+		if v.T == nil {
+			c.fail("asdyn needs a typed value")
+		}
+		if iv, ok := v.V.(*IfaceV); ok {
+			return cv{V: c.x.e.ifaceDyn(c.curState(), iv)}
+		}
+		dc := c.x.e.dynConFor(v.T)
+		return cv{V: T{S: fmt.Sprintf("(%s %s)", dc.Name, c.x.e.reify(c.curState(), v.V, v.T).S), So: "Dyn"}}
 	case "dynfield":
 		// dynfield(d, "Field"): the field of whichever concrete message type d holds (ite chain over constructors)
 		d := c.eval(e.Args[0])
